@@ -22,6 +22,17 @@ pub struct AnnotationDataBuilder<'a> { _p: std::marker::PhantomData<&'a usize> }
 pub struct SelectorBuilder<'a> { _p: std::marker::PhantomData<&'a usize> }
 #[verifier::external_body]
 pub struct Selector { _p: usize }
+impl<'a> SelectorBuilder<'a> {
+    /// ghost: this builder describes a complex (multi/composite/directional) selector
+    pub uninterp spec fn complex(&self) -> bool;
+    #[verifier::external_body]
+    pub fn is_complex(&self) -> (r: bool) ensures r == self.complex(), { unimplemented!() }
+}
+impl Selector {
+    pub uninterp spec fn scomplex(&self) -> bool;
+    #[verifier::external_body]
+    pub fn is_complex(&self) -> (r: bool) ensures r == self.scomplex(), { unimplemented!() }
+}
 #[verifier::external_body]
 pub struct Annotation { _p: usize }
 impl Storable for Annotation { type HandleType = AnnotationHandle; }
@@ -51,6 +62,7 @@ impl AnnotationStore {
     #[verifier::external_body]
     pub fn selector(&mut self, item: SelectorBuilder) -> (r: Result<Selector, StamError>)
         ensures r is Ok <==> Self::selector_ok(*old(self), item),
+                r is Ok ==> r->Ok_0.scomplex() == item.complex(),
                 final(self).dv() == old(self).dv() && final(self).av() == old(self).av(),
                 r is Err ==> final(self).tv() == old(self).tv(),
     { unimplemented!() }
@@ -77,7 +89,7 @@ def build():
     common.handle_trait(u, P)
     for h in ('AnnotationHandle', 'AnnotationDataSetHandle', 'AnnotationDataHandle'):
         common.handle_impl(u, h, P)
-    u.item('src/error.rs', 'enum', 'StamError', keep_variants=['NoTarget', 'BuildError', 'OtherError'], keep_derives=['Debug'])
+    u.item('src/error.rs', 'enum', 'StamError', keep_variants=['NoTarget', 'BuildError', 'WrongSelectorType', 'OtherError'], keep_derives=['Debug'])
     u.item(A, 'type', 'DataVec')
     u.trusted_text(STUBS, 'external_body: opaque AnnotationStore with assumed contracts of selector / insert_data / insert over ghost text/data/annotation versions; opaque builders; vx_build_err')
     u.item('src/store.rs', 'enum', 'BuildItem', keep_derives=[])
@@ -97,5 +109,19 @@ def build():
            prologue='let ghost vx_target = builder.target;',
            before=[('let mut data = DataVec::with_capacity(builder.data.len());', 'let ghost vx_mid = *self;')],
            known=['atomic']),
+    ])
+    # the first loop of AnnotationStore::subselectors (resolution of the parts of a complex selector), as a region
+    SIG = 'fn subselectors__resolve(&mut self, builders: Vec<SelectorBuilder>) -> Result<Vec<Selector>, StamError>'
+    u.impl(AS, 'impl AnnotationStore', [
+        Fn('subselectors', emit_name='subselectors__resolve', props=P, ret='r',
+           region=('let mut tmp = Vec::with_capacity(builders.len());', 'if tmp.len() == 1 {', SIG, '        Ok(tmp)'),
+           rewrites=[('R-forname', r'for builder in builders \{', 'for builder in vx_it: builders {')],
+           ensures=[('nested_rejected', '(exists|i: int| 0 <= i < builders@.len() && (#[trigger] builders@[i]).complex()) ==> r is Err'),
+                    ('nested_first_part_no_change', f'builders@.len() > 0 && builders@[0].complex() ==> r is Err && {UNCH}'),
+                    ('only_text_side', 'final(self).dv() == old(self).dv() && final(self).av() == old(self).av()')],
+           loops={r'vx_it: builders\b': dict(invariant=[
+               ('none_complex_so_far', 'forall|i: int| 0 <= i < vx_it.index@ ==> !(#[trigger] builders@[i]).complex()'),
+               ('frame', 'self.dv() == old(self).dv() && self.av() == old(self).av()'),
+               ('first', 'vx_it.index@ == 0 ==> self.tv() == old(self).tv()')])}),
     ])
     return u
